@@ -295,3 +295,44 @@ def rule_fmt(repo, res, modules=("parser", "lexer", "decoder", "token", "excepti
                                     "so KeyError / IndexError / AttributeError escape instead of the documented error types",
                                     where=f"pvl/{mname}.py:{x.lineno}"))
     res.oblige("FMT", f"{n} str.format() call(s) on the load path examined", ok=True, nontrivial=False)
+
+
+def rule_real_ops(repo, res):
+    """REAL-OPS: what the caller's real class returns is handed on, not computed with: in decode_decimal, a comparison or
+    arithmetic on the value made by `self.real_cls(...)` (`real != real`, `abs(real) == float("inf")`) lies inside the try
+    that turns decimal.InvalidOperation into ValueError -- or does not occur.  With real_cls=Decimal such operations raise
+    InvalidOperation for a signalling NaN (`sNaN`), an ArithmeticError that no handler of the loader catches."""
+    import ast
+    from .core import Finding, norm
+    n = 0
+    for cname in sorted(repo.subclasses("PVLDecoder")):
+        fn = repo.classes[cname].methods.get("decode_decimal")
+        if fn is None:
+            continue
+        reals = set()
+        for a in ast.walk(fn):
+            if isinstance(a, ast.Assign) and isinstance(a.value, ast.Call) and norm(a.value.func) == "self.real_cls":
+                for t in a.targets:
+                    if isinstance(t, ast.Name):
+                        reals.add(t.id)
+        for x in ast.walk(fn):
+            uses = isinstance(x, (ast.Compare, ast.BinOp, ast.UnaryOp)) or (isinstance(x, ast.Call) and norm(x.func) in ("abs", "round", "float", "int", "math.isnan", "math.isinf", "math.isfinite"))
+            if not uses or not any(isinstance(y, ast.Name) and y.id in reals for y in ast.iter_child_nodes(x) if not isinstance(y, ast.operator)) \
+                    and not (isinstance(x, ast.Call) and any(isinstance(y, ast.Name) and y.id in reals for y in x.args)):
+                continue
+            n += 1
+            covered = False
+            p = x
+            while p is not None and p is not fn:
+                q = getattr(p, "_parent", None)
+                if isinstance(q, ast.Try) and p in q.body and any(
+                        h.type is None or any(k in norm(h.type) for k in ("InvalidOperation", "ArithmeticError", "Exception")) for h in q.handlers):
+                    covered = True
+                p = q
+            res.oblige("REAL-OPS", f"{cname}.decode_decimal: `{norm(x, 40)}` on the real_cls value is covered by the InvalidOperation handler", ok=covered)
+            if not covered:
+                res.add(Finding("REAL-OPS", f"{cname}.decode_decimal", f"`{norm(x, 40)}` outside the guarded body",
+                                f"{cname}.decode_decimal computes `{norm(x, 50)}` with the value the caller's real class returned, outside the "
+                                "try that converts decimal.InvalidOperation: with real_cls=Decimal and a signalling NaN this raises "
+                                "InvalidOperation (an ArithmeticError), which escapes the loader", where=f"pvl/decoder.py:{x.lineno}"))
+    res.oblige("REAL-OPS", f"{n} operation(s) on real_cls values in decode_decimal examined", ok=True, nontrivial=False)
